@@ -7,7 +7,7 @@ use alpenglow::consensus::Cert;
 use rayon::prelude::*;
 use serde_json::{Value, json};
 
-use crate::common::{Report, Samples, Tier, catch, take_panics};
+use crate::common::{Report, Samples, Tier, catch, take_thread_panics as take_panics};
 use crate::simnet::*;
 
 #[derive(Clone, Debug)]
